@@ -602,6 +602,7 @@ func (r *ChunkReader) resolveSeekPosition() error {
 	// seekPosition.
 	cBias := int64(0)
 	dBias := int64(0)
+	cOffset := r.rootNodeCOffset
 	for {
 		i := r.currNode.findChunkContaining(r.seekPosition, dBias)
 		if r.currNode.isLeaf(i) {
@@ -615,6 +616,7 @@ func (r *ChunkReader) resolveSeekPosition() error {
 		parentCodecHasMixBit := r.currNode.codecHasMixBit()
 		parentVersion := r.currNode.version()
 		parentCOffMax := cBias + r.currNode.cPtrMax()
+		parentDPtrMax := r.currNode.dPtrMax()
 		childCOffset := r.currNode.cOff(i, cBias)
 		childCBias := cBias
 		if sTag := int(r.currNode.sTag(i)); sTag < r.currNode.arity() {
@@ -629,6 +631,15 @@ func (r *ChunkReader) resolveSeekPosition() error {
 			return err
 		}
 
+		// In order to rule out infinite loops, the RAC specification requires
+		// that the child's Branch COffset or its DPtrMax is less than the
+		// parent's.
+		if (childCOffset >= cOffset) && (r.currNode.dPtrMax() >= parentDPtrMax) {
+			r.err = errInvalidIndexNode
+			return r.err
+		}
+
+		cOffset = childCOffset
 		cBias = childCBias
 		dBias = childDBias
 	}
